@@ -943,6 +943,48 @@ func (e *Env) evalCall(n ECall) tv {
 			return e.fail("evis(pattern) is only meaningful inside `each ... satisfies`")
 		}
 		return tv{Sc{T: BoolLit(matchEvent(nameE.V, e.curEvent.Name))}, boolT}
+	case "captured":
+		// captured(f, "name"): the current value of the variable `name` that the closure value f captured
+		if len(n.Args) != 2 {
+			return e.fail("captured(f, \"name\") needs a closure and a variable name")
+		}
+		nameE, ok := n.Args[1].(EStr)
+		if !ok {
+			return e.fail("captured needs a variable name string")
+		}
+		fv := e.eval(n.Args[0])
+		sc, ok := fv.v.(Sc)
+		if !ok {
+			return e.fail("captured on a non-function value")
+		}
+		ci, ok := e.c.eng.closures[sc.T.S]
+		if !ok || ci.fn == nil {
+			return e.fail("captured: the value is not a closure created in this function")
+		}
+		want := nameE.V
+		if la := e.c.eng.localAlias[qualFnName(ci.fn)]; la != nil {
+			if nn, ok := la[want]; ok {
+				found := false
+				for _, v := range ci.fn.FreeVars {
+					found = found || v.Name() == want
+				}
+				if !found {
+					want = nn
+					e.c.eng.aliasUsed[e.c.key] = true
+				}
+			}
+		}
+		for i, v := range ci.fn.FreeVars {
+			if v.Name() == want && i < len(ci.binds) {
+				if pt, ok := v.Type().(*types.Pointer); ok {
+					if bsc, ok := ci.binds[i].(Sc); ok {
+						return tv{e.c.loadAt(e.s, bsc.T, pt.Elem()), pt.Elem()}
+					}
+				}
+				return tv{ci.binds[i], v.Type()}
+			}
+		}
+		return e.fail("captured: the closure has no captured variable " + nameE.V)
 	case "uses":
 		// uses(x): the event under consideration has x as receiver, as an argument, or captured by a
 		// closure it is given / spawns
